@@ -58,7 +58,7 @@ func c06StringAt(idx int) string {
 	return strings.Join(parts[:k], "")
 }
 
-// structured family aimed at the validator's "slash, filler, slash" rule: "/" + every sequence of <=3 (quick) / <=5 (thorough)
+// structured family aimed at the validator's "slash, filler, slash" rule: "/" + every sequence of <=3 (quick) / <=4 (thorough)
 // fillers + "/" or "\\" + host. Quantifier or character-class slips in that rule need exactly these strings.
 var c06Fillers = []string{"\t", "\n", "\r", " ", "\x0b", "\x0c", ".", "..", "/", "\\", "%09", "x"}
 
